@@ -888,6 +888,8 @@ def create_substitution_model(id_, model, arg):
             if alignment is not None:
                 rel_rates = torch.tensor(calculate_substitutions(alignment, mapping))
                 rates["tensor"] = (rel_rates[:-1] / rel_rates[:-1].sum()).tolist()
+                # the six values are spelled out: not a constant to expand
+                del rates["full"]
             if model == "SYM":
                 frequencies[CONSTRAINT.LOWER.value] = frequencies[
                     CONSTRAINT.UPPER.value
